@@ -193,12 +193,16 @@ static void engine(void)
         stripe_close(&st, 1);
         vh_group_end();
       } }
-    for (int ci = 0; ci < ncfg; ci++) {
+    /* variant 1: the same workload on data whose every 64-byte block carries the fragment-header magic at offset 59 (a payload that
+     * "looks like a header" must not confuse the pointer bookkeeping of the error paths); single faults only */
+    for (int variant = 0; variant < 2; variant++) for (int ci = 0; ci < ncfg; ci++) {
         struct shape sh = cfgs[ci];
-        if (!vh_group_begin("X/%s/k%dm%dhd%d", be_name(sh.be), sh.k, sh.m, sh.hd)) continue;
+        if (variant && sh.k + sh.m > 8) continue;
+        if (!vh_group_begin("X/%s/k%dm%dhd%d%s", be_name(sh.be), sh.k, sh.m, sh.hd, variant ? "/header-magic-data" : "")) continue;
         /* pristine reference stripe from an untapped instance of the same configuration */
         struct stripe ref; uint64_t a = (uint64_t)sh.k * word_bytes(sh.be);
-        if (stripe_open(&ref, sh, CHKSUM_CRC32, 2 * a + 3, PAT_RAMP, NULL)) { stripe_close(&ref, 0); vh_group_end(); continue; }
+        have_gold = 0;
+        if (stripe_open(&ref, sh, CHKSUM_CRC32, variant ? (uint64_t)sh.k * 64 : 2 * a + 3, variant ? PAT_MAGIC : PAT_RAMP, NULL)) { stripe_close(&ref, 0); vh_group_end(); continue; }
         tap_install_init(sh.be);
         long N = 0;
         if (vh_case_begin("fail@none") || 1) {
@@ -208,10 +212,10 @@ static void engine(void)
         for (long f1 = 1; f1 <= N; f1++) {
             if (vh_case_begin("fail@%ld", f1)) { tap_reset(); tap_fail_at[0] = f1; workload(&ref, 0); if (!tap_faults_fired) vh_violation("harness", "fault at %ld never fired", f1); }
         }
-        for (long f1 = 1; f1 <= N; f1++) for (long f2 = f1 + 1; f2 <= N + 2; f2++) {
+        if (!variant) for (long f1 = 1; f1 <= N; f1++) for (long f2 = f1 + 1; f2 <= N + 2; f2++) {
             if (vh_case_begin("fail@%ld,%ld", f1, f2)) { tap_reset(); tap_fail_at[0] = f1; tap_fail_at[1] = f2; workload(&ref, 0); }
         }
-        if (sh.k + sh.m <= triples_n) for (long f1 = 1; f1 <= N; f1++) for (long f2 = f1 + 1; f2 <= N + 1; f2++) for (long f3 = f2 + 1; f3 <= N + 2; f3++) {
+        if (!variant && sh.k + sh.m <= triples_n) for (long f1 = 1; f1 <= N; f1++) for (long f2 = f1 + 1; f2 <= N + 1; f2++) for (long f3 = f2 + 1; f3 <= N + 2; f3++) {
             if (vh_case_begin("fail@%ld,%ld,%ld", f1, f2, f3)) { tap_reset(); tap_fail_at[0] = f1; tap_fail_at[1] = f2; tap_fail_at[2] = f3; workload(&ref, 0); }
         }
         tap_reset();
